@@ -211,6 +211,19 @@ func (c *Ctx) callableGetterRule(rule string) {
 		}
 		n++
 		a := c.O.Of(s.Args()[1])
+		// … of the node the member is about to be selected from: the value that becomes the container of the member node
+		// (a test made once for the root says nothing about the getter results further down the path)
+		if ac, isCall := s.Args()[1].(*ssa.Call); isCall && isAddrCall(a) && len(ac.Call.Args) == 1 {
+			current := false
+			nodes := 0
+			for _, mk := range append(c.CallsIn(s.Fn, fnNewMethodNode, false), c.CallsIn(s.Fn, fnNewFieldNode, false)...) {
+				nodes++
+				if mk.Args()[0] == ac.Call.Args[0] {
+					current = true
+				}
+			}
+			r.Check(rule, sprintf("%s:lookup%d:addressable-argument:current-node", FnKey(s.Fn), n), c.Pos(s.Pos()), current || nodes == 0, "addressability is tested on "+c.O.Of(ac.Call.Args[0]).String()+", not on the node the member is selected from (the container handed to NewStructMethodNode / NewStructFieldNode): computed once for the root, it is true for every step of the path")
+		}
 		r.Check(rule, sprintf("%s:lookup%d:addressable-argument", FnKey(s.Fn), n), c.Pos(s.Pos()), isAddrCall(a),
 			"the resolver looks methods up as if every receiver were addressable (got "+a.String()+"): a pointer receiver getter is then chosen for a getter result, `src.Inner().Name()` with `func (*Inner) Name()` does not compile")
 	}
